@@ -84,6 +84,13 @@ def one_case(rng, cls, edge=False):
         case['c'] = [0.0, 0.0, 1.0, 0.0, 0.0]; case['view'] = True; case['buffered'] = False
     elif v < 0.27:
         case['dt'] = [-x for x in dt]          # "all dt": integration backwards in time
+    elif v < 0.40 and local and n > 1:
+        # an almost uniform array of per-cell steps (relative spread 1e-6 .. 1e-5): still one step PER CELL
+        case['dt'] = [dt[0] * (1.0 + 2.0 ** -20 * (i + 1)) for i in range(n)]
+    elif v < 0.52:
+        # micro time units (t * 2^-40, right-hand side * 2^40, exactly): no absolute time constants in a step
+        s_ = 2.0 ** -40
+        case['c'] = [c[0] / s_, c[1] / s_ / s_, c[2] / s_, c[3] / s_ / s_, c[4] / s_]; case['t0'] = t0 * s_; case['dt'] = [x * s_ for x in dt]
     return case
 
 
